@@ -118,12 +118,21 @@ class Optional(Box):
         return True
 
     def optimized(self) -> Self | Model:
+        from .basic import Cut
         from .closure import Closure, Gather, Join
 
+        def hascut(model: Model) -> bool:
+            return isinstance(model, Cut) or any(
+                hascut(c) for c in model.children() if isinstance(c, Model)
+            )
+
         exp = self.exp.optimized()
-        if isinstance(
-            exp, Optional | Closure | Join | Gather
-        ) and 'Positive' not in typename(exp):
+        # NOTE a closure can fail only after a cut, and then the optional matters
+        if (
+            isinstance(exp, Optional | Closure | Join | Gather)
+            and 'Positive' not in typename(exp)
+            and not hascut(exp)
+        ):
             return exp
         new = copy(self)
         new.exp = exp
